@@ -371,7 +371,8 @@ func doReplay(id string, spec propSpec, path string) int {
 		fmt.Printf("VIOLATION property=%s replay=%s\n", id, path)
 		return 1
 	case 3:
-		if ff.Class == "hang" {
+		if hangInCodeUnderTest(out) {
+			fmt.Printf("violation class=hang: a call into the code under test does not return\n")
 			fmt.Printf("VIOLATION property=%s replay=%s\n", id, path)
 			return 1
 		}
@@ -430,6 +431,12 @@ func runCheck(id string, spec propSpec, tier string, seed uint64) int {
 						continue
 					}
 					code, out := replayOnce(spec, filepath.Join(verifDir, w), "20s")
+					if code == 3 && hangInCodeUnderTest(out) {
+						fmt.Printf("violation class=hang: replaying the witness of fixed finding %s, a call into the code under test does not return\n%s\n", f.ID, tail(out, 30))
+						dst := saveReplay(id, seed, "witness-"+f.ID+"-hang", filepath.Join(verifDir, w))
+						fmt.Printf("VIOLATION property=%s replay=%s\n", id, dst)
+						return 1
+					}
 					switch code {
 					case 0:
 					case 1:
@@ -545,13 +552,17 @@ func runCheck(id string, spec propSpec, tier string, seed uint64) int {
 			violationLines = append(violationLines, fmt.Sprintf("VIOLATION property=%s replay=%s", id, dst))
 			violations++
 		case 3:
+			if violations >= 3 {
+				violations++
+				continue
+			}
 			// Watchdog: a step did not finish. Replay what the run had drawn.
 			hang := filepath.Join(wr.dir, "hang.json")
 			if _, err := os.Stat(hang); err != nil {
 				trouble("worker %s/%d hit the watchdog and left no record:\n%s", wr.sub.ID, wr.idx, tail(wr.out, 60))
 			}
 			code, out := replayOnce(spec, hang, "10s")
-			if code == 3 && !strings.Contains(out, "simsync") && hangInCodeUnderTest(out) {
+			if code == 3 && hangInCodeUnderTest(out) {
 				dst := saveReplay(id, seed, fmt.Sprintf("%s-w%d-hang", strings.ReplaceAll(wr.sub.ID, "/", "_"), wr.idx), hang)
 				fmt.Printf("violation class=hang: a call into the code under test does not return\n%s\n", tail(out, 40))
 				violationLines = append(violationLines, fmt.Sprintf("VIOLATION property=%s replay=%s", id, dst))
@@ -619,9 +630,24 @@ func loadFindings() findingsFile {
 	return ffs
 }
 
+// hangInCodeUnderTest reports whether a watchdog dump shows a goroutine that is
+// running (not parked in a synchronisation primitive) inside mds code: a call
+// that spins. A goroutine blocked in a primitive the simulator does not own is
+// something the simulator cannot decide.
 func hangInCodeUnderTest(out string) bool {
-	// The goroutine dump shows a running/runnable goroutine inside mds code.
-	return strings.Contains(out, "github.com/creachadair/mds/")
+	for _, block := range strings.Split(out, "\n\n") {
+		if !strings.HasPrefix(block, "goroutine ") {
+			continue
+		}
+		header := block[:strings.IndexByte(block+"\n", '\n')]
+		if !(strings.Contains(header, "[running") || strings.Contains(header, "[runnable")) {
+			continue
+		}
+		if strings.Contains(block, "github.com/creachadair/mds/") && !strings.Contains(block, "verifsim/sched.watchdog") {
+			return true
+		}
+	}
+	return false
 }
 
 func firstLine(s string) string {
